@@ -36,12 +36,16 @@ def run_grammar(args):
         pg = complete.head_overlap_gen(rng)
     elif kw.get("gen"):
         pg = getattr(complete, kw["gen"])(rng)
+    elif idx % 16 in (9, 13):
+        pg = complete.shape_clash_gen(rng)
     elif idx % 8 == 6:
         pg = complete.wordbreak_gen(rng)
     elif idx % 8 == 5:
         pg = complete.long_candidate_gen(rng)
     elif idx % 16 == 4:
         pg = complete.fallback_gen(rng)
+    elif idx % 8 == 7 or idx % 16 == 12:
+        pg = complete.chain_gen(rng)
     elif kw.get("shared") and idx % 4 == 1:
         pg = complete.shared_gen(rng)
     else:
